@@ -78,7 +78,7 @@ def c04_slices(tier):
     # A: every cheater subset x kind, three signers, all three modes
     sl.append(dict(name="A_subsets_kinds", module="C04", invariants=C04_INV, consts=consts(
         7, Shapes="{<<3,2>>}", IdSets="{{2,3,5}}", MaxExtra="1", Deltas="{1,6}" if not th else "1..6",
-        Kinds='{"add","neg","zero","other","sessB"}', **base)))
+        Kinds='{"add","neg","zero","other","sessB","negnonce"}', **base)))
     # B: every offset value for every non-empty cheater subset, two signers of {3,5}
     sl.append(dict(name="B_offsets", module="C04", invariants=C04_INV, consts=consts(
         7, Shapes="{<<2,2>>, <<3,2>>}", IdSets="{{3,5}, {1,3,5}}", MaxExtra="0", Deltas="1..6",
@@ -86,7 +86,7 @@ def c04_slices(tier):
     # C: shape slice: four signers, t = 4, middle/last cheaters
     sl.append(dict(name="C_shape_s4", module="C04", invariants=C04_INV, consts=consts(
         11, Shapes="{<<4,4>>}", IdSets="{{1,2,3,4}, {2,5,7,10}}", MaxExtra="0", Deltas="{1}",
-        Kinds='{"add","neg","other"}' if th else '{"add","neg"}',
+        Kinds='{"add","neg","other","negnonce"}' if th else '{"add","negnonce"}',
         **dict(base, DomH3="{4}", DomH1="{3}", KeyChoices="{7}", CoeffChoices="{3}"))))
     if th:
         sl.append(dict(name="D_q11", module="C04", invariants=C04_INV, timeout=3000, consts=consts(
